@@ -79,7 +79,7 @@ theorem augment_preserves_feasible (h : N.WF) {f : FlowT} (hc : N.CapOK f) (hf :
 the integer value by ≥ 1 and the value is bounded by the capacity out of the source; each BFS
 ends within `2·|V| + 2` pops. -/
 theorem ek_terminates (h : N.WF) : N.maxFlow.done = true :=
-  (N.loop_spec h _ [] 0 0 0 (LInv.init N h) (by
+  (N.loop_spec h _ [] 0 0 (0, 0) (LInv.init N h) (by
     have := N.value_le_cutCap h.nodup h.t_mem (S := [N.s]) (by simp)
       (by simpa using h.s_ne_t.symm) (LInv.init N h).feasible
     omega)).done
@@ -88,7 +88,7 @@ theorem ek_terminates (h : N.WF) : N.maxFlow.done = true :=
 a saturated cut for the returned flow. -/
 theorem ek_certifies (h : N.WF) :
     N.s ∈ N.maxFlow.vis ∧ N.t ∉ N.maxFlow.vis ∧ N.Saturated N.maxFlow.flow.get N.maxFlow.vis := by
-  have c := N.loop_spec h ((N.cutCap [N.s]).toNat + 1) [] 0 0 0 (LInv.init N h) (by
+  have c := N.loop_spec h ((N.cutCap [N.s]).toNat + 1) [] 0 0 (0, 0) (LInv.init N h) (by
     have := N.value_le_cutCap h.nodup h.t_mem (S := [N.s]) (by simp)
       (by simpa using h.s_ne_t.symm) (LInv.init N h).feasible
     omega)
@@ -105,12 +105,12 @@ theorem max_flow_correct (h : N.WF) :
     (∀ g, N.Feasible g → N.value g ≤ N.maxFlow.value) ∧
     (∀ S', N.s ∈ S' → N.t ∉ S' → N.maxFlow.value ≤ N.cutCap S') ∧
     N.chkMaxFlow N.maxFlow.flow N.maxFlow.vis N.maxFlow.value = true := by
-  have c := N.loop_spec h ((N.cutCap [N.s]).toNat + 1) [] 0 0 0 (LInv.init N h) (by
+  have c := N.loop_spec h ((N.cutCap [N.s]).toNat + 1) [] 0 0 (0, 0) (LInv.init N h) (by
     have := N.value_le_cutCap h.nodup h.t_mem (S := [N.s]) (by simp)
       (by simpa using h.s_ne_t.symm) (LInv.init N h).feasible
     omega)
   obtain ⟨e1, e2, e3⟩ := N.cut_cert h.nodup h.t_mem c.feasible c.s_mem c.t_not_mem c.saturated
-  have cv : N.value (N.loop ((N.cutCap [N.s]).toNat + 1) [] 0 0 0).flow.get = N.maxFlow.value := c.value
+  have cv : N.value (N.loop ((N.cutCap [N.s]).toNat + 1) [] 0 0 (0, 0)).flow.get = N.maxFlow.value := c.value
   refine ⟨c.done, c.feasible, c.value, ?_, ?_, ?_, ?_⟩
   · rw [← cv]; exact e1
   · intro g hg; rw [← cv]; exact e2 g hg
@@ -288,9 +288,41 @@ theorem ssp_sound_transshipment (I : Inst) (hv : I.valid = true) :
   split
   · exact Inst.certify_sound _ hv _
   · exact Inst.certify_sound _ hv _
--- FULL STATEMENT (not proved), `ssp_certifies`: if the network has no negative-cost cycle then
--- `(solveST n arcs s t d).status ≠ .negcycle` (and likewise `solveTS`), i.e. the search always ends
--- with a certificate the checker accepts.
+/-- **ssp_certifies_partial** (`min_cost_flow` / `solve_assignment` instances): for every network
+with non-negative capacities, terminals `s, t < n` and demand `d ≥ 0`, *whatever* the successive
+shortest-path search answers is accepted by the verified checker – a `feasible` answer always
+comes with a feasible flow and potentials of non-negative reduced cost on every residual arc, an
+`infeasible` answer with a set of reached nodes whose leaving capacity is below the demand – so
+`certify` never withholds an answer of the search (`solveST = ssp`).  No hypothesis on cycles is
+needed for this part: the flow invariant (simple parent paths, bottleneck pushes), the closedness
+of the reached set after `n - 1` sweeps and the quiet final sweep of the potentials hold for
+every input. -/
+theorem ssp_certifies_partial (n : Nat) (arcs : List Arc) (s t : Nat) (d : Int)
+    (hv : (Inst.ofST n arcs s t d).valid = true) (hcap : ∀ a ∈ arcs, 0 ≤ a.cap)
+    (hs : s < n) (ht : t < n) (hd : 0 ≤ d) :
+    solveST n arcs s t d = (Inst.ofST n arcs s t d).ssp s t d ∧
+    (((Inst.ofST n arcs s t d).ssp s t d).status = .feasible →
+      (Inst.ofST n arcs s t d).chkMinCost ((Inst.ofST n arcs s t d).ssp s t d).x
+        ((Inst.ofST n arcs s t d).ssp s t d).pot ((Inst.ofST n arcs s t d).ssp s t d).cost = true) ∧
+    (((Inst.ofST n arcs s t d).ssp s t d).status = .infeasible →
+      (Inst.ofST n arcs s t d).chkInfeas ((Inst.ofST n arcs s t d).ssp s t d).reach = true) := by
+  have hV := ((Inst.ofST n arcs s t d).valid_iff).1 hv
+  have hc : ∀ i < (Inst.ofST n arcs s t d).m, 0 ≤ ((Inst.ofST n arcs s t d).arc i).cap := by
+    intro i hi
+    have hi' : i < arcs.length := hi
+    have : (Inst.ofST n arcs s t d).arc i = arcs[i] := by
+      simp [Inst.arc, Inst.ofST, List.getD, List.getElem?_eq_getElem hi']
+    rw [this]
+    exact hcap _ (List.getElem_mem hi')
+  have hsup : (Inst.ofST n arcs s t d).STsup s t d := fun v hvn => ofST_sup n arcs s t d hvn
+  have c := (Inst.ofST n arcs s t d).ssp_cert hV hc (s := s) (t := t) hs ht hd hsup
+  exact ⟨Inst.certify_of_cert _ _ c, c.1, c.2⟩
+-- FULL STATEMENT (not proved), `ssp_certifies`: additionally, if the arcs of positive capacity
+-- contain no negative-cost cycle then `((Inst.ofST n arcs s t d).ssp s t d).status ≠ .negcycle`
+-- (the parent pointers of every Bellman-Ford run are acyclic, the bottleneck is positive and the
+-- zero-initialised Bellman-Ford of the potentials converges within `n` sweeps – the classical
+-- invariant that augmenting along shortest paths keeps the residual network free of negative
+-- cycles), and the same for the super-source/super-sink reduction used by `solveTS`.
 
 /-! ## C09 — assignment as a unit-capacity bipartite flow -/
 
